@@ -34,7 +34,7 @@ let do_check (seed : int) (txt : string) : string =
      | _ -> "REJECT")
   | _ -> "PARSE-ERR"
 
-(* c04premises: the computable premises of C04_prints_admitted (closed, rt_syn_ok, init_linear) on the
+(* c04premises: the computable premises of C04_prints_admitted (closed, init_linear) on the
    program text: where the answer is PREMISES-OK the theorem covers EVERY run of the program in the two
    polarized modes *)
 let do_premises (txt : string) : string =
